@@ -1,6 +1,7 @@
 import OhkamiModel.Drv.Common
 import OhkamiModel.M.Response
 import OhkamiModel.M.SetCookie
+import OhkamiModel.M.Framing
 import OhkamiModel.GenResHeaders
 import OhkamiModel.GenStatus
 /-! C03 driver: the executable model of `Response` behind the JSON line protocol.
@@ -79,13 +80,39 @@ def opsOf (j : Json) : Except String (List ROp) := do
     | k => throw s!"unmodelled typed responder {k}"
   else return [← opOf j]
 
+/-- the framing automaton's view of an operation (`Ohkami.Framing`): the body setters, `drop_content`, `set_stream`; everything else leaves the framing alone -/
+def framingOps (j : Json) : Except String (List Framing.Op) := do
+  let arr ← j.getArr?
+  let tag ← (arr.getD 0 Json.null).getStr?
+  let s (i : Nat) : Except String String := (arr.getD i Json.null).getStr?
+  match tag with
+  | "text" | "html" | "json" => return [.payload (fromHex (← s 1)).length]
+  | "payload" => return [.payload (fromHex (← s 2)).length]
+  | "drop" => return [.drop]
+  | "stream" => return [.stream]
+  | "typed" =>
+    match (← s 1) with
+    | "string" | "str" | "html" | "json" => return [.payload (fromHex (← s 3)).length]
+    | _ => return []
+  | _ => return []
+
+def framingJson (s : Framing.St) : Json :=
+  Json.mkObj [("cl", match s.cl with | some n => Json.num n | none => Json.null), ("te", s.te),
+    ("content", match s.content with | .none => "none" | .payload _ => "payload" | .stream => "stream")]
+
 def runCase (j : Json) : Except String Json := do
   let c ← j.getObjVal? "case"
   let status ← jnat c "status"
   let date ← jstr c "date"
-  let ops := (← (← jarr c "ops").toList.mapM opsOf).flatten
+  let opsJ := (← jarr c "ops").toList
+  let fops := (← opsJ.mapM framingOps).flatten
+  let framing := Json.mkObj [("get", framingJson (Framing.build status fops false)), ("head", framingJson (Framing.build status fops true))]
+  let hasStream := opsJ.any fun o => (o.getArr?.toOption.bind fun a => (a.getD 0 Json.null).getStr?.toOption) == some "stream"
+  if hasStream then          -- the byte-level model has no stream content: only the framing is predicted
+    return Json.mkObj [("id", (j.getObjValD "id")), ("model", Json.mkObj [("framing", framing)])]
+  let ops := (← opsJ.mapM opsOf).flatten
   let fin := build cfg status (toBytes date) ops
   return Json.mkObj [("id", (j.getObjValD "id")),
-    ("model", Json.mkObj [("wire", toHex (render cfg fin)), ("declared", declared cfg fin)])]
+    ("model", Json.mkObj [("wire", toHex (render cfg fin)), ("declared", declared cfg fin), ("framing", framing)])]
 
 end DrvC03
